@@ -8,7 +8,8 @@ Definition as_ui (v : val) : uistate :=
   mkU (as_int (arg v 0)) (as_str (arg v 1)) (map as_int (as_list (arg v 2))).
 Definition as_pol (v : val) : policy :=
   mkPol (as_bool (arg v 0))
-        (let m := as_int (arg v 1) in if m =? 0 then ExitNoWait else if m =? 1 then ExitWaitsRunning else ExitWaitsStopped).
+        (let m := as_int (arg v 1) in if m =? 0 then ExitNoWait else if m =? 1 then ExitWaitsRunning else ExitWaitsStopped)
+        (as_bool (arg v 2)).   (* absent = false: finishChan after cmd.Wait(), the tree *)
 
 Definition vopt {A} (f : A -> val) (o : option A) : val := match o with None => VL [] | Some x => VL [f x] end.
 Definition vints (l : list Z) : val := VL (map VI l).
@@ -41,6 +42,7 @@ Definition as_label (v : val) : label :=
   else if t =? 18 then LQuitPub
   else if t =? 20 then LHideWin
   else if t =? 21 then LShowWin
+  else if t =? 22 then LCloseOut
   else LProcEnd.
 
 Definition vproc (p : proc) : val :=
@@ -64,6 +66,18 @@ Fixpoint canonical (ls : list label) : list label :=
   | [] => []
   | l :: r => l :: settle ++ canonical r
   end.
+
+(* the same with commands that print a line, close their output and go on running until they are killed *)
+Definition settle_closing : list label :=
+  [LRender; LPoll; LTimer; LKill; LReap; LDisplay; LTake; LSpawn; LOutput [111]; LCloseOut; LDisplay].
+Fixpoint canonical_closing (ls : list label) : list label :=
+  match ls with
+  | [] => []
+  | l :: r => l :: settle_closing ++ canonical_closing r
+  end.
+(* 2007: like 2001 with closing, never-ending commands: [pol, tmpl, ui, [label...]] -> observables *)
+Definition d_canonical_closing (pol : policy) (t : tmpl) (u : uistate) (ls : list label) : val :=
+  observe pol (run pol (settle_closing ++ canonical_closing ls) (init t u)).
 
 (* 2001: canonical run of user labels: [pol, tmpl, ui, [label...]] -> observables (every request gets started) *)
 Definition d_canonical (pol : policy) (t : tmpl) (u : uistate) (ls : list label) : val :=
@@ -121,4 +135,6 @@ Definition dispatch_preview (op : Z) (a : val) : option val :=
                         (map as_int (as_list (arg a 5))))
   else if op =? 2006 then
     Some (d_scroll_run (as_gate (arg a 4)) (as_int (arg a 0)) (as_int (arg a 1)) (as_int (arg a 2)) (as_sched (arg a 3)))
+  else if op =? 2007 then
+    Some (d_canonical_closing (as_pol (arg a 0)) (as_tmpl (arg a 1)) (as_ui (arg a 2)) (map as_label (as_list (arg a 3))))
   else None.
